@@ -74,6 +74,20 @@ func c11Scenarios() []c11Scenario {
 	add("reformat-multi", false, false, "reformat", "fasta", "-p", "-i", "@multi.ph")
 	add("reformat-multibad", false, false, "reformat", "nexus", "-p", "-i", "@multibad.ph")
 	add("reformat-autodetect", false, false, "reformat", "phylip", "--auto-detect", "-i", "@multi.ph")
+	// --- commands that take only the first alignment of a Phylip stream (well-formed and malformed second alignment)
+	for _, in := range []string{"multi.ph", "multibad.ph"} {
+		tag := "-first-of-" + strings.TrimSuffix(in, ".ph")
+		add("reformat-fasta"+tag, false, false, "reformat", "fasta", "-p", "-i", "@"+in)
+		add("reformat-clustal"+tag, false, false, "reformat", "clustal", "-p", "-i", "@"+in)
+		add("reformat-tnt"+tag, false, false, "reformat", "tnt", "-p", "-i", "@"+in)
+		add("stats-taxa"+tag, false, false, "stats", "taxa", "-p", "-i", "@"+in)
+		add("stats-alphabet"+tag, false, false, "stats", "alphabet", "-p", "-i", "@"+in)
+		add("stats-gaps"+tag, false, false, "stats", "gaps", "-p", "-i", "@"+in)
+		add("stats-maxchar"+tag, false, false, "stats", "maxchar", "-p", "-i", "@"+in)
+		add("stats-mutations"+tag, false, false, "stats", "mutations", "--ref-sequence", "x1", "-p", "-i", "@"+in)
+		add("sample-sites"+tag, true, false, "sample", "sites", "-l", "2", "-p", "-i", "@"+in)
+		add("trim-name"+tag, false, false, "trim", "name", "-a", "-p", "-i", "@"+in)
+	}
 	// --- statistics
 	add("stats", false, false, "stats", "-i", "@tie.fa")
 	add("stats-perseq", false, false, "stats", "--per-sequences", "-i", "@tie.fa")
@@ -455,7 +469,20 @@ func c11Explore(c *mc.Ctx, r c11Run) {
 		}
 		if len(out.Exec.Races) > 0 {
 			failed = true
-			viol("data-race/"+raceVar(out.Exec.Races[0]), out.Exec.Races[0], x.Exec.Points)
+			x.NoExpand = true
+			// keyed by variable and by the source file of the first access (the command): the same
+			// race shows in every scenario of that command and must not depend on the scenario's name
+			msg := out.Exec.Races[0]
+			file := "?"
+			if i := strings.Index(msg, "@"); i >= 0 {
+				file = msg[i+1:]
+				if j := strings.IndexAny(file, ": "); j > 0 {
+					file = file[:j]
+				}
+			}
+			rr := r
+			rr.Choices = x.Exec.Points
+			c.Violation("C11/data-race/"+raceVar(msg)+"/"+file, fmt.Sprintf("%s; command: goalign %s (seed %d, threads %d); choices [%s]", msg, strings.Join(sc.Args, " "), r.Seed, r.Threads, mc.RenderPoints(x.Exec.Points)), rr)
 			return
 		}
 		if d := c11Diff(ref, obs); d != "" {
